@@ -18,8 +18,8 @@ func init() {
 			"in-range pairs + out-of-range boundary pairs; AbsSendTime all 2^24 values (+ 64-bit timestamps); AbsCaptureTime seeded 64-bit timestamps x " +
 			"{no offset, boundary and random offsets}; every input length 0..size+2; every decode also into a receiver pre-loaded with other values; " +
 			"non-trivial = every case (each value is a distinct point of the domain); distinct = (codec, value block, outcome class)",
-		Floor:     500,
-		Technique: "runtime monitor: exhaustive execution of the value domains against bit layouts written from the specifications; pre-loaded-receiver twin",
+		Floor:       500,
+		Technique:   "runtime monitor: exhaustive execution of the value domains against bit layouts written from the specifications; pre-loaded-receiver twin",
 		Assumptions: []string{"bit layouts per RFC 6464 (audio level), transport-wide-cc-01, playout-delay, abs-send-time and abs-capture-time specifications as restated in ref comments"},
 		Strata: []fw.Stratum{
 			{Name: "audiolevel", N: fw.Const(1, 1), Run: c17Audio, Exhaustive: true},
